@@ -276,3 +276,9 @@ def shrink(c):
         if k in c:
             for s in T.shrink_spec(c[k]):
                 yield dict(c, **{k: s})
+
+
+# living-object histories built from the step-wise cases above (harness/living.py); here an object that ends up in a state
+# its own constructor refuses IS the violation (every reachable tier is well-formed)
+import living  # noqa: E402
+living.install(globals(), illformed_fails=True, rate=0.25, cap=2500)
